@@ -11,6 +11,7 @@
 (*   groups   f, overlap, groups = [[key, [docnum..]]..]   Results.groups()  (key 0 = None)      *)
 (*            f = "_range" with buckets / "_query" with qs: keys are bucket / query numbers       *)
 (*   groupview f, overlap, maptype, sort, groups     the FacetMap views of an unlimited search's groups *)
+(*   limited  k, rev, docs                           search(limit=k, reverse=rev[, groupedby=...]) by score *)
 (*   resultsop op, q2, k1, k2, docs, n               r1.extend / filter / upgrade / upgrade_and_extend (r2) *)
 (*   collapse f, n, k, sort, order, docs, collapsed   search(collapse=f, collapse_limit=n, limit=k[, sortedby][, collapse_order]) *)
 (*   filtered filt, mask (queries or null), k, hits   search(filter=, mask=, limit=k)            *)
@@ -192,6 +193,8 @@ ObsOK(idx, m, q, o) ==
     [] o.kind = "groups" -> GroupsOK(idx, m, o)
     [] o.kind = "collapse" -> CollapseOK(idx, m, o)
     [] o.kind = "groupview" -> GroupViewOK(idx, m, o)
+    \* the hits of a limited, score-ranked search whatever else it computes (groups) and in either direction
+    [] o.kind = "limited" -> o.docs = Prefix(IF o.rev THEN Rev(Rank(m)) ELSE Rank(m), o.k)
     [] o.kind = "resultsop" -> ResultsOpOK(idx, m, o)
     [] o.kind \in {"filtered", "filteredlen"} -> FilteredOK(idx, m, o)
     [] o.kind = "page" -> PageOK(m, o)
@@ -217,6 +220,7 @@ Expected(idx, m, q, o) ==
                                len_if_valueless_documents_share_a_key |-> Len(CollapseSeq(idx, rk, o.f, o.n, Len(rk), TRUE))]
     [] o.kind = "groupview" -> LET spec == GroupsSpec(idx, DOMAIN m, o.f, o.overlap) IN
                                [groups_in_result_order |-> [key \in DOMAIN spec |-> GroupMembers(idx, m, o, key)]]
+    [] o.kind = "limited" -> [docs |-> Prefix(IF o.rev THEN Rev(Rank(m)) ELSE Rank(m), o.k)]
     [] o.kind = "resultsop" -> ResultsOpFacts(idx, m, o)
     [] o.kind = "page" -> PageFacts(m, o)
     [] o.kind = "len" -> [n |-> Cardinality(DOMAIN m)]
